@@ -1,4 +1,158 @@
-import Model.Pipeline
+import Proofs.Pipeline
+/-!
+# C12  Handles clean up after themselves: no zombies, no self-inflicted drop hang
+
+Model: `Pipe.run` (Model/Pipeline.lean): for every terminator of `Exec` (n = 1) and `Pipeline`
+(n ≥ 2) the parent's pipe creations, starts, closes and waits, including `Popen::drop` (release own
+ends, then wait unless detached or already waited for), the adapters' `Drop`, and the order in which
+`join` / `capture` wait.  "No zombie" is: every non-detached command is waited for exactly once
+before the handle is gone (a wait reaps).  "No self-inflicted hang" is stated as what the parent
+controls: at every wait of an adapter's drop it holds no pipe end at all, so a command that ends at
+end-of-file on stdin or on a broken output pipe cannot be kept alive by the parent.  The kernel's
+EOF / SIGPIPE behaviour and the children are outside the model (real runs with unbounded writers,
+`cat`, early exits and a watchdog cover them).
+-/
 namespace Pipe
-theorem c12_placeholder : stepHeld Held.empty .io = Held.empty := rfl
+
+theorem count_filter_range (p : Nat → Bool) (n j : Nat) :
+    ((List.range n).filter p).count j = if j < n ∧ p j = true then 1 else 0 := by
+  induction n with
+  | zero => simp
+  | succ n ih =>
+    rw [List.range_succ, List.filter_append, List.count_append, ih]
+    by_cases hj : j = n
+    · subst hj
+      cases hp : p j <;> simp [hp]
+    · have hne : ¬ n = j := fun h => hj h.symm
+      have hlt : (j < n + 1) ↔ (j < n) := by omega
+      by_cases hp : p n = true <;> simp [hp, hne, hlt]
+
+/-- the waits of a successful run, per terminator -/
+theorem waits_ok (c0 : Cfg) (t : Term) (h : AllStart c0) :
+    (run c0 t).filterMap waitIdx =
+      match t with
+      | .join | .capture => (c0.n - 1) :: (List.range c0.n).filter (fun j => !(effective c0 t).det j && !decide (j = c0.n - 1))
+      | _ => (List.range c0.n).filter (fun j => !(effective c0 t).det j) := by
+  have hn := effective_n c0 t
+  have w_closes : ∀ es : List End, (es.map Act.close).filterMap waitIdx = [] :=
+    fun es => filterMap_closes waitIdx (by simp [waitIdx]) es
+  have s9 : ∀ a b c, List.filterMap waitIdx [Act.mk a b c] = [] := fun _ _ _ => rfl
+  have s10 : ∀ e, List.filterMap waitIdx [Act.close e] = [] := fun _ => rfl
+  have s11 : List.filterMap waitIdx [Act.io] = [] := rfl
+  have s12 : ∀ j, List.filterMap waitIdx [Act.waitRet j] = [j] := fun _ => rfl
+  have s13 : ∀ b, List.filterMap waitIdx [Act.ret b] = [] := fun _ => rfl
+  have s14 : List.filterMap waitIdx [Act.ret true, Act.user] = [] := rfl
+  have s15 : ∀ e, List.filterMap waitIdx [Act.ret true, Act.user, Act.close e] = [] := fun _ => rfl
+  unfold run
+  rw [runEff_ok _ t (effective_allStart c0 t h)]
+  simp only [List.filterMap_append, waits_stages]
+  cases t <;> simp only [tail, List.filterMap_append, waits_dropVec, w_closes, s11, s12, s13, s14, s15, hn,
+    List.nil_append, List.append_nil] <;>
+    cases capPipe (effective c0 _) _ <;> simp [s9, s10, noneWaited]
+
+/-- **C12 (no zombies).**  When all commands start, then by the time the terminator has returned and
+    the handle it returned has been dropped, every command that is not detached has been waited
+    for exactly once -- for `popen`, `join`, `capture` and the three stream adapters, of single
+    commands and of pipelines of any length. -/
+theorem c12_every_child_reaped_once (c0 : Cfg) (t : Term) (h : AllStart c0) (j : Nat) (hj : j < c0.n)
+    (hd : (effective c0 t).det j = false) : ((run c0 t).filterMap waitIdx).count j = 1 := by
+  rw [waits_ok c0 t h]
+  cases t <;> simp only [List.count_cons, count_filter_range] <;>
+    (try by_cases hl : j = c0.n - 1) <;> simp_all <;> omega
+
+/-- **C12 (dropping a detached Popen never reaps).**  A detached command is never waited for by
+    `popen` and the stream adapters (`join`/`capture` wait explicitly for the last command only). -/
+theorem c12_detached_never_waited (c0 : Cfg) (t : Term) (h : AllStart c0)
+    (ht : t = .popen ∨ t = .streamStdout ∨ t = .streamStderr ∨ t = .streamStdin) (j : Nat)
+    (hd : c0.det j = true) : ((run c0 t).filterMap waitIdx).count j = 0 := by
+  rw [waits_ok c0 t h]
+  have hdet : (effective c0 t).det j = true := by
+    rcases ht with rfl | rfl | rfl | rfl <;> simpa [effective] using hd
+  rcases ht with rfl | rfl | rfl | rfl <;> simp only [count_filter_range] <;> simp_all
+
+/-- `communicate` detaches everything: it never waits -/
+theorem c12_communicate_never_waits (c0 : Cfg) (h : AllStart c0) : (run c0 .communicate).filterMap waitIdx = [] := by
+  rw [waits_ok c0 .communicate h]
+  have hd : ∀ j, (effective c0 .communicate).det j = true := by
+    intro j; simp only [effective]; (repeat' split) <;> rfl
+  simp [hd]
+
+theorem heldStages_cases (c : Cfg) (e : End) (hn : 0 < c.n) (h : heldStages c Held.empty c.n e ≠ none) :
+    (e = ⟨1, .w⟩ ∧ hasInPipe c = true) ∨ (e = ⟨2 + (c.n - 1), .r⟩ ∧ hasOutPipe c (c.n - 1) = true) ∨
+    (hasErrPipe c = true ∧ e = ⟨0, .r⟩) := by
+  have : ¬ c.n = 0 := by omega
+  simp only [heldStages, this, if_false] at h
+  by_cases h1 : e = ⟨1, .w⟩ ∧ hasInPipe c = true
+  · exact Or.inl h1
+  · by_cases h2 : e = ⟨2 + (c.n - 1), .r⟩ ∧ hasOutPipe c (c.n - 1) = true
+    · exact Or.inr (Or.inl h2)
+    · by_cases h3 : hasErrPipe c = true ∧ e = ⟨0, .r⟩
+      · exact Or.inr (Or.inr h3)
+      · simp [h1, h2, h3, Held.empty] at h
+
+/-- **C12 (dropping a stream adapter never deadlocks on that very pipe -- nor on any other).**
+    For `stream_stdout`, `stream_stderr` and `stream_stdin` of a single command, and `stream_stdout` /
+    `stream_stdin` of a pipeline of any length: at every wait performed by the drop of the adapter
+    the parent holds no pipe end whatsoever -- the adapter's own end and every other end the handle
+    owned were released first.  (For `stream_stdin` of a pipeline the pipeline's stdout must not itself
+    be `Pipe`, a configuration in which the caller could never read that output.) -/
+theorem c12_adapter_drop_holds_nothing (c0 : Cfg) (t : Term) (h : AllStart c0) (hn : 0 < c0.n)
+    (ht : t = .streamStdout ∨ (t = .streamStderr ∧ c0.n = 1) ∨ (t = .streamStdin ∧ (c0.n = 1 ∨ c0.sout ≠ .pipe))) :
+    WaitsUnder (fun h => ∀ e, h e = none) Held.empty (run c0 t) := by
+  have hA := effective_allStart c0 t h
+  have hnn := effective_n c0 t
+  have hn' : 0 < (effective c0 t).n := by omega
+  have inp : ∀ c : Cfg, hasInPipe c = true → (⟨1, .w⟩ : End) ∈ popenEnds c 0 := by
+    intro c hi; simp [popenEnds, hi]
+  have errp : ∀ c : Cfg, hasErrPipe c = true → (⟨0, .r⟩ : End) ∈ popenEnds c 0 := by
+    intro c hi; simp [popenEnds, hi]
+  have outp : ∀ c : Cfg, c.n = 1 → hasOutPipe c 0 = true → (⟨2, .r⟩ : End) ∈ popenEnds c 0 := by
+    intro c h1 ho; simp [popenEnds, h1, ho]
+  unfold run
+  rcases ht with rfl | ⟨rfl, h1⟩ | ⟨rfl, h1⟩
+  · apply drop_waits_nothing_held _ _ hA (by simp [capPipe]) [⟨2 + ((effective c0 .streamStdout).n - 1), .r⟩] (by simp [tail])
+    intro e he
+    rcases heldStages_cases _ e hn' he with ⟨rfl, hi⟩ | ⟨rfl, _⟩ | ⟨hE, rfl⟩
+    · exact Or.inr (inp _ hi)
+    · exact Or.inl (by simp)
+    · exact Or.inr (errp _ hE)
+  · apply drop_waits_nothing_held _ _ hA (by simp [capPipe]) [] (by simp [tail])
+    intro e he
+    have hn1 : (effective c0 .streamStderr).n = 1 := by omega
+    rcases heldStages_cases _ e hn' he with ⟨rfl, hi⟩ | ⟨rfl, ho⟩ | ⟨hE, rfl⟩
+    · exact Or.inr (inp _ hi)
+    · rw [hn1] at ho ⊢; exact Or.inr (outp _ hn1 ho)
+    · exact Or.inr (errp _ hE)
+  · apply drop_waits_nothing_held _ _ hA (by simp [capPipe]) [⟨1, .w⟩] (by simp [tail])
+    intro e he
+    rcases heldStages_cases _ e hn' he with ⟨rfl, hi⟩ | ⟨rfl, ho⟩ | ⟨hE, rfl⟩
+    · exact Or.inl (by simp)
+    · rcases h1 with h1 | h1
+      · have hn1 : (effective c0 .streamStdin).n = 1 := by omega
+        rw [hn1] at ho ⊢; exact Or.inr (outp _ hn1 ho)
+      · exfalso
+        have : (effective c0 .streamStdin).sout = c0.sout := by simp [effective]
+        simp [hasOutPipe, this, h1] at ho
+        omega
+    · exact Or.inr (errp _ hE)
+
+/-- the same for a plain `Popen` of a single command: `Popen::drop` releases its pipe ends before it waits -/
+theorem c12_popen_drop_holds_nothing (c0 : Cfg) (h : AllStart c0) (hn : c0.n = 1) :
+    WaitsUnder (fun h => ∀ e, h e = none) Held.empty (run c0 .popen) := by
+  have hA := effective_allStart c0 .popen h
+  have hn1 : (effective c0 .popen).n = 1 := by rw [effective_n]; exact hn
+  unfold run
+  apply drop_waits_nothing_held _ _ hA (by simp [capPipe]) [] (by simp [tail])
+  intro e he
+  rcases heldStages_cases _ e (by omega) he with ⟨rfl, hi⟩ | ⟨rfl, ho⟩ | ⟨hE, rfl⟩
+  · exact Or.inr (by simp [popenEnds, hi])
+  · rw [hn1] at ho ⊢; exact Or.inr (by simp [popenEnds, hn1, ho])
+  · exact Or.inr (by simp [popenEnds, hE])
+
+/-! Non-vacuity (tests, labelled as tests) -/
+example : (run { n := 3, det := fun j => j = 1, sin := .inherit, sout := .inherit, serr := .inherit, errTo := false,
+                 failAt := none } .streamStdout).filterMap waitIdx = [0, 2] := by decide
+example : AllStart { n := 3, det := fun j => j = 1, sin := .inherit, sout := .inherit, serr := .inherit, errTo := false,
+                     failAt := none } := Or.inl rfl
+
 end Pipe
